@@ -6,7 +6,10 @@
    (Model/CborEnc.v), the indefinite-length array of the path, CRC-32 envelope, Base58.
    Decoding of untrusted CBOR is done by cbor2 in the library and is an oracle here ([parse_outer],
    [parse_payload], [parse_bytes]): each answers None unless the input is well-formed CBOR of the shape the
-   library then insists on.  Hashes, PBKDF2, ChaCha20-Poly1305 and CRC-32 are oracles.
+   library then insists on.  [parse_outer] and [parse_payload] demand EXACTLY ONE item -- nothing may follow it
+   (_CborLoadsExact; before the repair of finding C10-BYRON-TRAILING cbor2.loads ignored what followed); the value of
+   attribute 1 is still read with cbor2.loads, i.e. [parse_bytes] looks at its first item only.  The harness answers
+   the three oracles with its own CBOR reader (harness/cborref.py), not with cbor2.  Hashes, PBKDF2, ChaCha20-Poly1305 and CRC-32 are oracles.
 
    The decoder is modelled as property C14 demands: EVERY input that is not well-formed CBOR of the expected shape
    (tag 24 around a byte string, CRC-32, [28-byte hash, attribute map with byte-string values, type]) is a ValueError.
